@@ -39,7 +39,7 @@ def gen_item(rng):
         names = list(dict.fromkeys(names))
     annotate = rng.random() < 0.5
     ann = {n: (f'{n}-({rng.randrange(1, 99)}; {rng.randrange(0, 101)})' if annotate else n) for n in names + [label]}
-    heuristic = rng.choice(['MI-numba-randomized', 'MI', 'surrogate-SGD', 'max-value-coverage', 'AMI', 'MI-numba-3mr'])
+    heuristic = rng.choice(['MI-numba-randomized', 'MI', 'surrogate-SGD', 'max-value-coverage', 'AMI', 'MI-numba-3mr', 'correlation-Pearson', 'correlation-Pearson', 'Constant'])
     vals = rng.choice([list(range(-6, 7)), [0, 1, 2, 3], [5], list(range(-400, 401, 7))])
     if 'MI' in heuristic and rng.random() < 0.25:
         vals = [250000, 250001, 250002, 250004]          # distinct medians that are relatively close (the normalisation only uses their differences)
